@@ -54,6 +54,10 @@ ASSUMPTIONS = [
     "the fresh names of the real FormulaManager as the names of the result that do not occur in the input and "
     "matches them one-to-one with the model's",
     "generated binder lists are duplicate-free (the theorems do not need it)",
+    "deep stream (chains nested 1500-5000 levels, default recursion limit): S only, judged by iterative Python "
+    "checkers of the shapes and an iterative Python evaluator on 4 assignments; the Lean drivers are recursive and "
+    "are not used on these inputs, no K; prenex gets a quantifier only below monotone chains (below n Iff/Ite "
+    "levels the prefix legitimately has 2^n copies)",
     "public routes (shortcuts.qelim / Factory.qelim with solver_name in {name, None} and logic in {None, AUTO, BOOL, "
     "detected}; the walker classes; the module functions with the default environment) must return what the "
     "direct call returns (prenex: up to fresh names); Factory.qelim may refuse (NoSolverAvailableError, "
@@ -495,6 +499,43 @@ class Gen10:
         return f
 
 
+    def propagate_shadow(self):
+        """a top-level definition `k = c` whose KEY k is re-bound by a quantifier (shadowing; not the capture of
+        F51: the representative c is a constant), free occurrences of k in other conjuncts, the quantifier in every
+        argument position (first, middle, last) and below connectives"""
+        m, r = self.m, self.rng
+        if r.random() < 0.7:
+            syms, consts = [self.x, self.y, self.z], [m.Int(c) for c in (0, 1, 2, -1)]
+            le, lt = m.LE, m.LT
+        else:
+            syms, consts = list(self.bv2)[:3], [m.BV(c, 2) for c in (0, 1, 3)]
+            le, lt = m.BVULE, m.BVULT
+        syms = list(syms)
+        r.shuffle(syms)
+        k, w = syms[0], syms[1]
+        c = self.pick(consts)
+
+        def use():
+            j = r.randrange(5)
+            return [lt(w, k), le(k, w), m.Not(m.Equals(k, w)), m.Or(lt(k, w), self.bool_leaf([])),
+                    m.Equals(k, self.pick(consts))][j]
+        body = r.choice([le(w, k), m.Or(lt(k, w), m.Equals(k, self.pick(consts))), m.Not(m.Equals(k, w)),
+                         m.And(le(w, k), self.bool_leaf([]))])
+        q = (m.ForAll if r.random() < 0.5 else m.Exists)([k], body)
+        j = r.randrange(5)
+        qpos = [q, q, m.Not(q), m.Or(q, lt(w, self.pick(consts))), m.Implies(self.bool_leaf([]), q)][j]
+        uses = [use() for _ in range(r.choice([1, 1, 2, 3]))]
+        eq = m.Equals(k, c) if r.random() < 0.6 else m.Equals(c, k)
+        others = uses + [eq]
+        r.shuffle(others)
+        pos = r.choice([0, 0, len(others), r.randrange(len(others) + 1)])
+        conj = others[:pos] + [qpos] + others[pos:]
+        if len(conj) >= 3 and r.random() < 0.3:
+            i = r.randrange(1, len(conj) - 1)
+            conj = conj[:i] + [m.And(conj[i:])]
+        return m.And(conj)
+
+
 # ------------------------------------------------------------------------------------------- running the real code
 def run_impl(env, proc, f):
     """-> ("ok", FNode | [FNode]) | ("err", exception class name, message)"""
@@ -859,6 +900,7 @@ def generate(ctx, env, n_each):
             cases.append(("selfsub", qb_))
         pi = g.propagate_input()
         cases.append(("propagate", pi))
+        cases.append(("propagate", g.propagate_shadow()))
         if i % 4 == 0:
             cases.append(("propagate", pi, None, None, routes_for("propagate", pi)))
     return cases
@@ -1210,6 +1252,276 @@ def bound_symbols(f):
     return out
 
 
+# ------------------------------------------------------------------------------------------- deep inputs
+# Extreme but legal sizes: chains of And/Or/Not/Implies/Iff/Ite/Plus/Times/Minus nested 1500-5000 levels, under the
+# default recursion limit.  The Lean drivers parse and evaluate terms recursively and are not used here: the stream
+# is S only, judged by iterative Python checkers of the advertised shape and an iterative Python evaluator on a few
+# assignments (Boolean binders exact).  No K, no theorem speaks about the cost.
+DEEP_KINDS = ["and_l", "and_r", "or_l", "or_r", "not", "not_and", "imp_l", "imp_r", "iff", "ite", "mixed"]
+DEEP_ARITH = ["plus_l", "plus_r", "times", "minus", "plus_times"]
+
+
+def deep_build(env, desc):
+    """desc = [kind, depth, base] -> FNode.  base: 'qf' | 'ex' | 'fa' (a Boolean quantifier at the bottom) |
+    'exq' (a Boolean quantifier on top, the chain mentions its variable) | 'defs' (definitions among the conjuncts)"""
+    m = env.formula_manager
+    kind, n, base = desc
+    a, b, c, qb = [m.Symbol(nm, BOOL) for nm in ("da", "db", "dc", "dq")]
+    x, y, z = [m.Symbol(nm, INT) for nm in ("dx", "dy", "dz")]
+    if kind in DEEP_ARITH:
+        t = x
+        for i in range(n):
+            if kind == "plus_l":
+                t = m.Plus(t, y if i % 2 else m.Int(1))
+            elif kind == "plus_r":
+                t = m.Plus(x if i % 3 else z, t)
+            elif kind == "times":
+                t = m.Times(t, y) if i % 2 else m.Times(m.Int(1), t)
+            elif kind == "minus":
+                t = m.Minus(t, y if i % 2 else m.Int(1))
+            else:
+                t = m.Plus(m.Times(x, y), t) if i % 2 else m.Plus(t, z)
+        if base == "top_times":
+            t = m.Times(m.Plus(y, m.Int(2)), t)
+        return t
+    leaves = [a, b, c, m.Not(a), m.LE(x, y)]
+    if base == "exq":
+        leaves = [a, qb, m.Not(qb), c, m.LE(x, y)]
+    if base == "defs":
+        leaves = [a, m.Equals(x, y), m.LE(x, z), m.Equals(y, m.Int(2)), m.Not(b), m.LT(z, x)]
+    f = {"qf": a, "exq": qb, "defs": m.LE(z, m.Int(5)),
+         "ex": m.Exists([qb], m.Or(qb, c)), "fa": m.ForAll([qb], m.Or(m.Not(qb), m.And(a, c)))}[base]
+    for i in range(n):
+        l = leaves[i % len(leaves)]
+        k_ = kind if kind != "mixed" else DEEP_KINDS[(i * 7 + i // 5) % 10]
+        if k_ == "and_l":
+            f = m.And(f, l)
+        elif k_ == "and_r":
+            f = m.And(l, f)
+        elif k_ == "or_l":
+            f = m.Or(f, l)
+        elif k_ == "or_r":
+            f = m.Or(l, f)
+        elif k_ == "not":
+            f = m.Not(f)
+        elif k_ == "not_and":
+            f = m.Not(m.And(f, l))
+        elif k_ == "imp_l":
+            f = m.Implies(f, l)
+        elif k_ == "imp_r":
+            f = m.Implies(l, f)
+        elif k_ == "iff":
+            f = m.Iff(f, l)
+        else:
+            f = m.Ite(l, f, m.Not(l)) if i % 2 else m.Ite(f, l, b)
+    if base == "exq":
+        f = m.Exists([qb], f) if n % 2 else m.ForAll([qb], f)
+    return f
+
+
+def py_apply(n, v):
+    if n.is_and():
+        return all(v)
+    if n.is_or():
+        return any(v)
+    if n.is_not():
+        return not v[0]
+    if n.is_implies():
+        return (not v[0]) or v[1]
+    if n.is_iff():
+        return v[0] == v[1]
+    if n.is_ite():
+        return v[1] if v[0] else v[2]
+    if n.is_plus():
+        return sum(v)
+    if n.is_minus():
+        return v[0] - v[1]
+    if n.is_times():
+        p_ = 1
+        for e in v:
+            p_ *= e
+        return p_
+    if n.is_le():
+        return v[0] <= v[1]
+    if n.is_lt():
+        return v[0] < v[1]
+    if n.is_equals():
+        return v[0] == v[1]
+    raise ValueError("py_eval: operator %s" % n.node_type())
+
+
+def py_eval(f, asg):
+    """iterative evaluator (Bool / Int fragment of the deep stream); Boolean binders are enumerated"""
+    memo, stack = {}, [f]
+    while stack:
+        n = stack[-1]
+        i = n.node_id()
+        if i in memo:
+            stack.pop()
+            continue
+        if n.is_symbol():
+            memo[i] = asg[n]
+        elif n.is_bool_constant() or n.is_int_constant():
+            memo[i] = n.constant_value()
+        elif n.is_quantifier():
+            vs = list(n.quantifier_vars())
+            vals = []
+            for bits in itertools.product([False, True], repeat=len(vs)):
+                a2 = dict(asg)
+                a2.update(zip(vs, bits))
+                vals.append(py_eval(n.arg(0), a2))
+            memo[i] = all(vals) if n.is_forall() else any(vals)
+        else:
+            pend = [c for c in n.args() if c.node_id() not in memo]
+            if pend:
+                stack.extend(pend)
+                continue
+            memo[i] = py_apply(n, [memo[c.node_id()] for c in n.args()])
+        stack.pop()
+    return memo[f.node_id()]
+
+
+def is_conn(n):
+    return n.is_bool_op() or n.is_ite()         # every ite of the deep stream is Boolean
+
+
+def py_shape(shape, g):
+    """iterative checkers of the advertised shapes -> None | what is wrong"""
+    if shape == "prenex":
+        while g.is_quantifier():
+            g = g.arg(0)
+        shape = "qf"
+    seen, stack = set(), [g]
+    while stack:
+        n = stack.pop()
+        if n.node_id() in seen:
+            continue
+        seen.add(n.node_id())
+        if shape == "qf":
+            if n.is_quantifier():
+                return "a quantifier is left"
+            stack.extend(n.args())
+        elif shape in ("nnf", "aig"):
+            if n.is_quantifier() or n.is_and() or (shape == "nnf" and n.is_or()):
+                stack.extend(n.args())
+            elif n.is_not():
+                if shape == "nnf" and is_conn(n.arg(0)):
+                    return "a negation over a connective"
+                if shape == "aig":
+                    stack.append(n.arg(0))
+            elif is_conn(n):
+                return "connective %s is left" % wire.OPNAMES[n.node_type()]
+        elif shape == "times":
+            if n.is_minus():
+                return "a subtraction is left"
+            if (n.is_times() or n.is_plus()) and any(c.is_plus() for c in n.args()):
+                return "a sum below a %s" % ("product" if n.is_times() else "sum")
+            stack.extend(n.args())
+    return None
+
+
+def deep_cases(ctx):
+    """[(proc, desc)]: the procedures on the chain kinds they accept.  quick: the chains a procedure is sensitive to
+    (And for the conjunctive partition and propagate, Or for the disjunctive one) plus 3 other kinds each, depth
+    1500-3500; thorough: every kind, depth 1500-5000"""
+    r = ctx.rng
+    quick = ctx.tier == "quick"
+    depth = lambda lo=1500, hi=(3500 if quick else 5000): r.randrange(lo, hi)
+    forced = {"conj": ["and_l", "and_r"], "disj": ["or_l", "or_r"], "propagate": ["and_l", "and_r"],
+              "propagate_simp": ["and_l"]}
+    out = []
+    for proc in ("nnf", "aig", "conj", "disj", "prenex", "shannon", "selfsub", "propagate", "propagate_simp"):
+        kinds = list(DEEP_KINDS)
+        if quick:
+            must = forced.get(proc, [])
+            rest = [k for k in DEEP_KINDS if k not in must]
+            kinds = must + r.sample(rest, 3)
+        for kind in kinds:
+            bases = ["qf"]
+            if proc in ("nnf", "aig"):
+                bases = [r.choice(["qf", "ex", "fa", "exq"])]
+            elif proc in ("shannon", "selfsub"):
+                bases = [r.choice(["qf", "ex", "fa"]), "exq"] if not quick else [r.choice(["ex", "fa", "exq"])]
+            elif proc == "prenex":
+                # a quantifier below n Iff / Ite levels is legitimately copied 2^n times: monotone chains only
+                bases = [r.choice(["ex", "fa"]) if kind not in ("iff", "ite", "mixed") else "qf"]
+            elif proc.startswith("propagate"):
+                bases = [r.choice(["qf", "defs"]) if kind not in ("and_l", "and_r") else "defs"]
+            for base in bases:
+                out.append((proc, [kind, depth(), base]))
+    # the distributor is quadratic in the number of summands (pairwise products): long sums at moderate depth
+    for kind in DEEP_ARITH:
+        out.append(("times", [kind, depth() if kind == "times" else r.randrange(1500, 1700), "plain"]))
+    out.append(("times", [r.choice(["plus_l", "plus_r", "minus"]), r.randrange(1000, 1500), "top_times"]))
+    r.shuffle(out)
+    return out
+
+
+def deep_run(ctx, env, cases):
+    """S on the deep inputs with the direct Python oracles"""
+    r = ctx.rng
+    m = env.formula_manager
+    for proc, desc in cases:
+        if ctx.time_left() < 40:
+            ctx.count("deep_skipped_time")
+            continue
+        try:
+            f = deep_build(env, desc)
+        except RecursionError:
+            ctx.infra("deep stream: the constructors hit the recursion limit on %r" % (desc,))
+            continue
+        name = "%s chain, depth %d, base %s" % tuple(desc)
+        rep = {"proc": proc, "deep": desc, "formula": name, "history": None}
+        sig = {"proc": proc, "deep": "yes", "chain": desc[0]}
+        res = run_impl(env, proc, f)
+        ctx.case((proc, "deep", desc[0], desc[2]))
+        ctx.count("deep_" + proc)
+        if res[0] == "err":
+            ctx.report_s(dict(sig, oracle="exception", error=res[1]),
+                         "%s raised %s on a legal deep input (%s): %s" % (proc, res[1], name, res[2][:120]), rep)
+            continue
+        # ---- shape
+        bad = None
+        if proc in ("conj", "disj"):
+            parts = res[1]
+            if any((p_.is_and() if proc == "conj" else p_.is_or()) for p_ in parts):
+                bad = "a member is itself a%s" % (" conjunction" if proc == "conj" else " disjunction")
+            elif len(set(parts)) != len(parts):
+                bad = "a member occurs twice"
+        elif proc in SHAPE_OF or proc == "times":
+            bad = py_shape(SHAPE_OF.get(proc, "times"), res[1])
+        if bad:
+            ctx.report_s(dict(sig, oracle="shape"), "%s on a deep input (%s): %s" % (proc, name, bad), rep)
+            continue
+        ctx.count("deep_shape_ok")
+        # ---- a few evaluations
+        syms = [m.Symbol(nm, BOOL) for nm in ("da", "db", "dc", "dq")]
+        ints = [m.Symbol(nm, INT) for nm in ("dx", "dy", "dz")]
+        for k in range(4):
+            asg = {sy: (r.random() < 0.5 if k else True) for sy in syms}
+            small = desc[0] in ("times", "plus_times")
+            asg.update({sy: r.choice([-1, 0, 1, 2] if small else [-3, -1, 0, 1, 2, 5]) for sy in ints})
+            if desc[2] == "defs" and k % 2:
+                asg[ints[0]] = asg[ints[1]] = 2           # the definitions x = y, y = 2 hold
+            try:
+                want = py_eval(f, asg)
+                if proc in ("conj", "disj"):
+                    vals = [py_eval(p_, asg) for p_ in res[1]]
+                    got = all(vals) if proc == "conj" else any(vals)
+                else:
+                    got = py_eval(res[1], asg)
+            except (ValueError, KeyError) as e:
+                ctx.count("deep_eval_skipped_%s" % type(e).__name__)
+                break
+            if got != want:
+                ctx.report_s(dict(sig, oracle="equiv"),
+                             "%s on a deep input (%s): the result evaluates to %r, the input to %r under %s" % (
+                                 proc, name, got, want,
+                                 {sy.symbol_name(): v for sy, v in asg.items()}), rep)
+                break
+            ctx.count("deep_eval_ok")
+
+
 # ------------------------------------------------------------------------------------------- fresh symbols and history
 TYTOK = {"B": BOOL, "I": INT, "V2": BVType(2)}
 
@@ -1315,6 +1627,13 @@ def probes(env):
     # the guard of propagate_equiv is exact: a bound *key* or a constant representative is harmless
     out.append(("propagate", m.And(m.Equals(x, m.Int(1)), m.ForAll([x], m.LE(x, y)))))
     out.append(("propagate", m.And(m.Equals(x, y), m.ForAll([y], m.LE(y, m.Symbol("z", INT))))))
+    # a quantifier re-binds the KEY of a definition (round 5: the substituter must not edit the caller's map):
+    # the quantifier first / in the middle / last among the conjuncts
+    for cj in ([m.ForAll([x], m.LE(y, x)), m.LT(y, x), m.Equals(x, m.Int(1))],
+               [m.LT(y, x), m.ForAll([x], m.LE(y, x)), m.Equals(x, m.Int(1))],
+               [m.Equals(x, m.Int(1)), m.LT(y, x), m.Exists([x], m.LE(y, x))],
+               [m.Not(m.Exists([x], m.LT(x, y))), m.Equals(m.Int(2), x), m.LE(x, y)]):
+        out.append(("propagate", m.And(cj)))
     # F52: a constant joins a class led by a symbol; the constant is also the index of an array value
     out.append(("propagate", m.And(m.Equals(m.Select(m.Array(INT, m.Int(0), {m.Int(5): m.Int(1)}), x), m.Int(1)),
                                    m.Equals(y, m.Int(5)), m.Equals(x, y))))
@@ -1362,6 +1681,14 @@ def run(ctx):
             ctx.extra["stopped_early_at"] = i
             break
         process(ctx, env, cases[i:i + chunk])
+    dc = deep_cases(ctx)
+    if ctx.tier != "quick":
+        dc = dc + deep_cases(ctx) + deep_cases(ctx)
+    ctx.extra["deep_cases"] = len(dc)
+    import time as _t
+    t0 = _t.time()
+    deep_run(ctx, env, dc)
+    ctx.extra["t_deep"] = round(_t.time() - t0, 1)
     hc = history_cases(ctx, 60 if ctx.tier == "quick" else 600)
     ctx.extra["history_cases"] = len(hc)
     process(ctx, env, hc)
@@ -1378,6 +1705,13 @@ def replay(ctx, rep):
     if r.get("history"):
         return replay_history(ctx, r)
     env = fresh_env()
+    if r.get("deep"):
+        print("procedure:", r["proc"])
+        print("input    :", r["formula"], "(built by deep_build(env, %r))" % (r["deep"],))
+        deep_run(ctx, env, [(r["proc"], r["deep"])])
+        for v in ctx.s_violations:
+            print("S:", v["what"][:400])
+        return
     f = build_fnode(env, wire.dec_term(r["term"]))
     proc = r["proc"]
     print("procedure:", proc)
